@@ -1333,6 +1333,17 @@ def corpus():
                [(R(3), 0, True, True)])
     out.append(('all-none-subclass', p3, [(0, ('obj', 3, [('obj', 1, [('none',), ('none',)]), ('int', 1)])),
                                           (0, ('obj', 3, [('obj', 1, [('int', 1), ('text', 'q')]), ('none',)]))]))
+    # 4. a container of the subclass's own namespace as the argument: lxml declares that namespace under
+    #    its own prefix on an ancestor of the element that carries the marker
+    p4 = _prog('urn:a', [{'ns': 'urn:b', 'name': 'Base', 'parent': None, 'fields': [_f('a', P('int'))]},
+                         {'ns': 'urn:b', 'name': 'Sub', 'parent': 0, 'fields': [_f('b', P('text'))]},
+                         {'ns': 'urn:b', 'name': 'Holder', 'parent': None,
+                          'fields': [_f('n', P('int')), _f('x', R(0)), _f('ys', R(0), 0, None)]},
+                         {'ns': 'urn:b', 'name': 'Box', 'parent': None, 'fields': [_f('h', R(2))]}],
+               [(R(3), 0, True, True)])
+    out.append(('nested-same-namespace', p4,
+                [(0, ('obj', 3, [('obj', 2, [('int', 1), ('obj', 1, [('int', 1), ('text', 'q')]),
+                                             ('list', [('obj', 1, [('none',), ('none',)]), ('obj', 0, [('int', 2)])])])]))]))
     return out
 
 
